@@ -44,6 +44,31 @@ PROPS["C06"] = {
     "assumptions": ["only genuine messages of the pair are delivered (adversarial bytes belong to C02/C03/C08)", "the clock stands still within one run (expiry is exercised in C02/C07)"],
 }
 
+PROPS["C02"] = {
+    "pkg": "sess", "engine": "seqsim", "env": {"SIM_PROP": "C02"},
+    "legs": ["passive", "passive", "active"],
+    "runs": {"quick": 12000, "thorough": 600000},
+    "budget": {"quick": 150, "thorough": 1800},
+    "rule": "one run = one adversary schedule (10-80 actions) over 2-4 real Session pairs (A-B pairs incl. role swaps, unrelated C-D): deliver/drop/reorder/replay/cross-feed/reflect any byte string ever emitted, 8 kinds of mutation, clock jumps across expiry; leg active adds the protocol-speaking attacker of C03; "
+            "non-trivial = at least one fault fired and at least one session became ready; distinct = distinct event traces",
+    "components": SEQ,
+    "level_text": "seeded exploration of adversary action sequences against real Sessions; oracles after every delivery (authentic, from the dynamically paired peer session, at most once, unmodified) and over all emitted bytes at the end (counter uniqueness per session, no plaintext on the wire)",
+    "level_note": "trusted: harness transport/adversary/oracle (sim/sess), seeded crypto/rand; AEAD, X25519, Ed25519 assumed sound; key identity approximated by session identity for counter uniqueness",
+    "assumptions": ["session leg only: the channel-level clauses (at most once across rotation, concurrent Send) are exercised by the channel simulation of C05/C07 where C02's oracles are also attached"],
+}
+PROPS["C03"] = {
+    "pkg": "sess", "engine": "seqsim", "env": {"SIM_PROP": "C03"},
+    "legs": ["active"],
+    "runs": {"quick": 12000, "thorough": 600000},
+    "budget": {"quick": 150, "thorough": 1800},
+    "rule": "as C02 leg active: in addition an attacker with its own key speaks the wire protocol through its own noise state in both roles: honest, stolen (replayed) timestamp claim, victim key with attacker signature, wrong-purpose signature, garbage, stolen channel-binding signature from another handshake, early data, data under attacker keys; "
+            "after every action every honest session that is usable (IsReady, returned application data, or Send succeeded) must report a remote key whose owner demonstrably took part in this very handshake (mutual acceptance of genuine handshake messages, or the attacker's own key); non-trivial/distinct as C02",
+    "components": SEQ,
+    "level_text": "seeded exploration of active-attacker behaviours against real Sessions with a provenance oracle (who produced the handshake messages a session accepted, who consumed its own) evaluated after every single delivered message",
+    "level_note": "trusted: the attacker repertoire is finite (not a Dolev-Yao closure); provenance is tracked at message granularity; primitives assumed sound",
+    "assumptions": ["attacker holds only its own private key"],
+}
+
 NOT_APPLICABLE = {
     "C17": "pure functions of their input (key/peer-id marshal, parse, equality, fingerprint): no schedule, clock, fault or second party for a simulator to vary; see DESIGN.md §7",
 }
